@@ -1,4 +1,6 @@
 import LlgoVerif.Lemmas.CAbiLayout
+import LlgoVerif.Lemmas.CAbiCall
+import LlgoVerif.Lemmas.CgoStr
 /-!
 # C09 — values cross the Go/C boundary intact (x86-64)
 
@@ -8,7 +10,7 @@ calling convention, the C-string helpers); specification: `LlgoVerif/Spec/SysV.l
 image, sequential register assignment); lemmas: `LlgoVerif/Lemmas/CAbi.lean`, `LlgoVerif/Lemmas/CAbiLayout.lean`.
 -/
 namespace LlgoVerif.CAbi
-open LlgoVerif.SysV
+open LlgoVerif.SysV LlgoVerif.CAbiCall LlgoVerif.CgoStr
 
 /-! ## Classification of one aggregate -/
 
@@ -226,6 +228,279 @@ theorem cstr_roundtrip_counterexample : ¬ CStrRoundtripFull := by
   intro h
   have := h (List.replicate 6 0xAA) 1 [65, 0, 66] (by decide) [0xAA, 65, 0, 66, 0, 0xAA] (by decide)
   revert this
+  decide
+
+
+/-! ## Call sites: result and by-value parameter objects (`transformCallInstr`, model `Model/CAbiCall.lean`) -/
+
+
+
+/-- result object placed on a fresh temporary, by-value arguments copied to fresh temporaries -/
+theorem call_temp_sound (frame : Frame) (f : Prog) (c : CallSite) (m : Cells)
+    (hd : Disjoint (temps frame c))
+    (hs : Safe (temps frame c) f (initA (fun off => m (frame 0 + off)) c m)) :
+    ∀ x, ¬ InRanges (temps frame c) x →
+      implCall .temp .temp frame f c m x = specCall (fun off => m (frame 0 + off)) f c m x := by
+  intro x hx
+  have hsim := run_sim (temps frame c) hd f _ _ (init_sim .temp frame c m hd) hs
+  have hb0 : (placement .temp frame c).base 0 = frame 0 := by simp [placement]
+  simp only [temps, hb0] at hsim
+  simp only [implCall, specCall]
+  have hcells : readCells (runC (placement .temp frame c) f (initC .temp frame c m)).mem (frame 0) c.nres
+      = privCells (runA f (initA (fun off => m (frame 0 + off)) c m)).priv 0 0 c.nres := by
+    have := readCells_eq_privCells (runC (placement .temp frame c) f (initC .temp frame c m)).mem
+      (runA f (initA (fun off => m (frame 0 + off)) c m)).priv 0 (frame 0) c.nres 0 (fun i hi => by
+        have := hsim.inn 0 (by simp only [placement]; omega) i (by simp only [placement, if_pos]; exact hi)
+        simp only [hb0] at this
+        simp only [Nat.zero_add, Nat.add_zero]
+        exact this)
+    simpa using this
+  rw [hcells]
+  exact (writeCells_congr _ _ _ _ _ (hsim.out x hx)).symm
+
+
+/-- **passing the destination as `sret`, partial**: right when the callee cannot reach the destination through any
+    other name (what LLVM's call-slot optimisation proves before it does the same) -/
+theorem call_dest_partial (frame : Frame) (f : Prog) (c : CallSite) (m : Cells)
+    (hd : Disjoint (placement .dest frame c))
+    (hs : Safe (placement .dest frame c) f (initA (fun off => m (c.dst + off)) c m)) :
+    ∀ x, (∀ k, 1 ≤ k → k < (temps frame c).n → ¬ ((temps frame c).base k ≤ x ∧ x < (temps frame c).base k + (temps frame c).size k)) →
+      implCall .dest .temp frame f c m x = specCall (fun off => m (c.dst + off)) f c m x := by
+  intro x hx
+  have hsim := run_sim _ hd f _ _ (init_sim .dest frame c m hd) hs
+  have hb0 : (placement .dest frame c).base 0 = c.dst := by simp [placement]
+  simp only [hb0] at hsim
+  simp only [implCall, specCall]
+  by_cases hin : c.dst ≤ x ∧ x < c.dst + c.nres
+  · have h1 := hsim.inn 0 (by simp only [placement]; omega) (x - c.dst) (by simp only [placement, if_pos]; omega)
+    rw [hb0, show c.dst + (x - c.dst) = x by omega] at h1
+    rw [← h1]
+    have h2 := writeCells_in (privCells (runA f (initA (fun off => m (c.dst + off)) c m)).priv 0 0 c.nres)
+      (runA f (initA (fun off => m (c.dst + off)) c m)).mem c.dst (x - c.dst) (by rw [privCells_length]; omega)
+    rw [show c.dst + (x - c.dst) = x by omega] at h2
+    rw [h2, privCells_getD _ _ _ _ _ (by omega)]
+    simp
+  · have hout : ¬ InRanges (placement .dest frame c) x := by
+      rintro ⟨k, hk, h1, h2⟩
+      by_cases hk0 : k = 0
+      · subst hk0
+        simp only [placement, if_pos] at h1 h2
+        exact hin ⟨h1, h2⟩
+      · refine hx k (by omega) (by simpa [temps, placement] using hk) ?_
+        simp only [temps, placement, hk0, if_false] at h1 h2 ⊢
+        exact ⟨h1, h2⟩
+    rw [writeCells_out _ _ _ _ (by rw [privCells_length]; omega)]
+    exact (hsim.out x hout).symm
+
+/-- the hypotheses of `call_dest_partial` are satisfiable: `b = rotate(&a)` with `b` elsewhere -/
+example : Disjoint (placement .dest frame1000 ⟨3, [.word 100], 200⟩) ∧
+    Safe (placement .dest frame1000 ⟨3, [.word 100], 200⟩) rotate (initA (fun off => mem123 (200 + off)) ⟨3, [.word 100], 200⟩ mem123) := by
+  decide
+
+/-- **Call-site soundness, full statement** for a configuration of `transformCallInstr`: whatever the callee does
+    (any program that stays inside its private objects and does not reach into the caller's fresh, unpublished
+    temporaries), whatever the destination of the result, whatever the memory and whatever happened to the memory
+    the by-value arguments were loaded from — after the rewritten call every cell outside the dead temporaries holds
+    what the Go-level meaning of `*dst = f(args…)` says. -/
+def CallSiteSound (rc : RetCfg) (bc : ByvalCfg) : Prop :=
+  ∀ (u : ResultUse) (a : ArgDef) (frame : Frame) (f : Prog) (c : CallSite) (m : Cells),
+    Disjoint (temps frame c) →
+    Safe (temps frame c) f (initA (fun off => m (frame 0 + off)) c m) →
+    ∀ x, ¬ InRanges (temps frame c) x →
+      implCallCfg rc bc u a frame f c m x = specCall (fun off => m (frame 0 + off)) f c m x
+
+/-- **true for the code as it is**: a fresh temporary for the result object, the argument values for the by-value
+    parameter objects -/
+theorem callsite_sound : CallSiteSound .temp .copy := by
+  intro u a frame f c m hd hs x hx
+  exact call_temp_sound frame f c m hd hs x hx
+
+/-- **false when the destination of the following store is passed as `sret`**: `v = rotate(&v)` with `rotate`
+    filling its result object while it reads `*p` — (1,2,3) must become (2,3,1), the third cell comes out as 2 -/
+theorem callsite_elide_counterexample : ¬ CallSiteSound .elideIntoStore .copy := by
+  intro h
+  have := h ⟨true⟩ ⟨true⟩ frame1000 rotate ⟨3, [.word 100], 100⟩ mem123 (by decide) (by decide) 102 (by decide)
+  revert this
+  decide
+
+/-- **false when the address a by-value argument was loaded from is passed instead of the loaded value**:
+    `t := *p; p.X = 7; f(t)` — the callee must see `t.X = 1`, it sees 7 -/
+theorem callsite_reuse_counterexample : ¬ CallSiteSound .temp .reuseLoadSource := by
+  intro h
+  have := h ⟨true⟩ ⟨true⟩ frame1000 leakParam ⟨0, [.byval [1, 2, 3] 100], 200⟩ mem723 (by decide) (by decide) 300 (by decide)
+  revert this
+  decide
+
+/-- … and right when nothing was stored to that memory between the load and the call -/
+theorem callsite_reuse_partial (u : ResultUse) (a : ArgDef) (frame : Frame) (f : Prog) (c : CallSite) (m : Cells)
+    (hl : ArgsLoaded c m) (hd : Disjoint (temps frame c))
+    (hs : Safe (temps frame c) f (initA (fun off => m (frame 0 + off)) c m)) :
+    ∀ x, ¬ InRanges (temps frame c) x →
+      implCallCfg .temp .reuseLoadSource u a frame f c m x = specCall (fun off => m (frame 0 + off)) f c m x := by
+  intro x hx
+  have : implCallCfg .temp .reuseLoadSource u a frame f c m = implCall .temp .temp frame f c m := by
+    unfold implCallCfg lowerRet lowerByval
+    cases hb : a.isLoad
+    · rfl
+    · simp only [implCall, initC, ite_true, bvContents_temp, bvContents_source m _ hl]
+  rw [this]
+  exact call_temp_sound frame f c m hd hs x hx
+
+/-- the hypotheses of `call_temp_sound` / `callsite_sound` hold for `v = rotate(&v)` (destination = what `p` points to),
+    those of `callsite_reuse_partial` for a by-value argument whose source was not touched since the load -/
+example :
+    (Disjoint (temps frame1000 ⟨3, [.word 100], 100⟩) ∧
+      Safe (temps frame1000 ⟨3, [.word 100], 100⟩) rotate (initA (fun off => mem123 (frame1000 0 + off)) ⟨3, [.word 100], 100⟩ mem123)) ∧
+    (ArgsLoaded ⟨0, [.byval [1, 2, 3] 100], 200⟩ mem123 ∧ Disjoint (temps frame1000 ⟨0, [.byval [1, 2, 3] 100], 200⟩) ∧
+      Safe (temps frame1000 ⟨0, [.byval [1, 2, 3] 100], 200⟩) leakParam
+        (initA (fun off => mem123 (frame1000 0 + off)) ⟨0, [.byval [1, 2, 3] 100], 200⟩ mem123)) := by
+  decide
+
+/-! ## cgo conversion helpers: copies, not windows (`z_cgo.go`, model `Model/CgoStr.lean`) -/
+
+
+/-- **A Go string made from C memory keeps its bytes**, full statement per configuration: whatever C stores
+    afterwards into memory it owns (anything but the Go allocator's new object), the string still reads as the `n`
+    bytes C held at `p` when `GoStringN(p, n)` was called. -/
+def GoStringNStable (cfg : CopyCfg) : Prop :=
+  ∀ (s : Heap) (p : Nat) (n : Int) (ws : List (Nat × Nat)), Avoids s.brk n.toNat ws →
+    readCells (applyWrites (goStringN cfg s p n).2.mem ws) (goStringN cfg s p n).1.data (goStringN cfg s p n).1.len
+      = readCells s.mem p n.toNat
+
+theorem gostringn_stable : GoStringNStable .copy := by
+  intro s p n ws h
+  unfold goStringN
+  by_cases hn : n ≤ 0
+  · rw [if_pos hn]
+    have : n.toNat = 0 := by omega
+    simp [this, readCells]
+  · rw [if_neg hn]
+    exact copy_stable s.mem s.brk p n.toNat ws h
+
+/-- `unsafe.String(p, n)` instead of the copying conversion: C overwrites its buffer and the Go string changes -/
+theorem gostringn_alias_counterexample : ¬ GoStringNStable .alias := by
+  intro h
+  have := h ⟨fun a => if a = 10 then 102 else if a = 11 then 105 else 0, 20⟩ 10 2 [(10, 90)] (by decide)
+  revert this
+  decide
+
+/-- `GoString(p)` (`strlen` + `GoStringN`): the same for the bytes before the first NUL -/
+theorem gostring_stable (s : Heap) (p : Nat) (hp : p ≠ 0) (r : GoStr × Heap) (h : goString .copy s p = some r) :
+    ∃ n, strlenB s.mem p (s.brk - p) = some n ∧ r.1.len = n ∧
+      ∀ ws, Avoids s.brk n ws → readCells (applyWrites r.2.mem ws) r.1.data r.1.len = readCells s.mem p n := by
+  unfold goString at h
+  rw [if_neg hp] at h
+  cases hl : strlenB s.mem p (s.brk - p) with
+  | none => rw [hl] at h; simp at h
+  | some n =>
+    rw [hl] at h
+    simp only [Option.some.injEq] at h
+    subst h
+    refine ⟨n, rfl, ?_, ?_⟩
+    · unfold goStringN
+      by_cases hn : (n : Int) ≤ 0
+      · rw [if_pos hn]; simp only; omega
+      · rw [if_neg hn]; simp
+    · intro ws hws
+      have := gostringn_stable s p n ws (by simpa using hws)
+      simpa using this
+
+/-- hypotheses of `gostring_stable`: "fi\0" at 10, frontier 20; C later overwrites its own buffer -/
+example : (∃ r, goString .copy ⟨fun a => if a = 10 then 102 else if a = 11 then 105 else 0, 20⟩ 10 = some r ∧ r.1.len = 2) ∧
+    Avoids 20 2 [(10, 90), (11, 90), (12, 90)] := ⟨⟨_, rfl, rfl⟩, by decide⟩
+
+/-- **A Go byte slice made from C memory keeps its bytes**, full statement per configuration -/
+def GoBytesStable (cfg : CopyCfg) : Prop :=
+  ∀ (s : Heap) (p n : Nat) (ws : List (Nat × Nat)), Avoids s.brk n ws →
+    readCells (applyWrites (goBytes cfg s p n).2.mem ws) (goBytes cfg s p n).1.data (goBytes cfg s p n).1.len
+      = readCells s.mem p n
+
+theorem gobytes_stable_copy : GoBytesStable .copy := by
+  intro s p n ws h
+  exact copy_stable s.mem s.brk p n ws h
+
+/-- `(*[1<<30]byte)(p)[:n:n]` returned as is: the slice is a window onto C's buffer -/
+theorem gobytes_alias_counterexample : ¬ GoBytesStable .alias := by
+  intro h
+  have := h ⟨fun a => if a = 10 then 102 else if a = 11 then 105 else 0, 20⟩ 10 2 [(11, 90)] (by decide)
+  revert this
+  decide
+
+/-- `C.CBytes(b)` is a copy: later stores to the Go slice (or anywhere else outside the new C object) do not show -/
+theorem cbytes_stable (guard : Bool) (s : Heap) (h : GoSlice) (r : Nat × Heap) (hr : cBytes guard s h = some r)
+    (ws : List (Nat × Nat)) (hw : Avoids s.brk h.len ws) :
+    readCells (applyWrites r.2.mem ws) r.1 h.len = readCells s.mem h.data h.len := by
+  unfold cBytes at hr
+  split at hr
+  · simp at hr
+  · simp only [Option.some.injEq] at hr
+    subst hr
+    exact copy_stable s.mem s.brk h.data h.len ws hw
+
+example : (∃ r, cBytes false ⟨fun a => a, 40⟩ ⟨16, 3, 3⟩ = some r ∧ r.1 = 40) ∧
+    Avoids 40 3 [(16, 0), (17, 0), (18, 0)] := ⟨⟨_, rfl, rfl⟩, by decide⟩
+
+/-- every byte slice can be handed to C — full statement per configuration -/
+def CBytesTotal (guard : Bool) : Prop := ∀ (s : Heap) (h : GoSlice), (cBytes guard s h).isSome = true
+
+theorem cbytes_total_guarded : CBytesTotal true := by
+  intro s h
+  simp [cBytes]
+
+/-- `&b[0]` of the empty slice: index out of range -/
+theorem cbytes_empty_counterexample : ¬ CBytesTotal false := by
+  intro h
+  have := h ⟨fun _ => 0, 16⟩ ⟨16, 0, 0⟩
+  revert this
+  decide
+
+/-- … and fine for every non-empty slice -/
+theorem cbytes_total_partial (s : Heap) (h : GoSlice) (hl : 0 < h.len) : (cBytes false s h).isSome = true := by
+  simp [cBytes]; omega
+
+example : (0 : Nat) < (GoSlice.mk 16 3 3).len := by decide
+
+/-- **Go string → `C.CString` → `C.GoString`** gives back the bytes of a NUL-free string, and that result is again
+    independent of what happens to the C copy afterwards (`free`, reuse). -/
+theorem cgo_string_roundtrip (s : Heap) (h : GoStr) (hb : 0 < s.brk)
+    (hnul : ∀ i, i < h.len → s.mem (h.data + i) ≠ 0) :
+    ∃ r, goString .copy (cString s h).2 (cString s h).1 = some r ∧ r.1.len = h.len ∧
+      ∀ ws, Avoids (cString s h).2.brk h.len ws →
+        readCells (applyWrites r.2.mem ws) r.1.data r.1.len = s.str h := by
+  have hsrc : readCells (cString s h).2.mem s.brk h.len = readCells s.mem h.data h.len := by
+    simp only [cString]
+    have h1 := readCells_writeCells (readCells s.mem h.data h.len) s.mem s.brk
+    rw [readCells_length] at h1
+    refine Eq.trans ?_ h1
+    apply readCells_congr
+    intro i hi
+    exact writeCells_out [0] _ _ _ (by simp; omega)
+  have hcell : ∀ i, i < h.len → (cString s h).2.mem (s.brk + i) = s.mem (h.data + i) := by
+    intro i hi
+    have h1 := readCells_getD (cString s h).2.mem h.len s.brk i hi
+    rw [hsrc, readCells_getD s.mem h.len h.data i hi] at h1
+    exact h1.symm
+  have hz : (cString s h).2.mem (s.brk + h.len) = 0 := by
+    simp only [cString, writeCells]
+    exact Cells.set_eq _ _ _
+  have hlen : strlenB (cString s h).2.mem s.brk ((cString s h).2.brk - s.brk) = some h.len :=
+    strlenB_spec _ h.len s.brk _ (fun i hi => by rw [hcell i hi]; exact hnul i hi) hz (by simp only [cString]; omega)
+  have hg : goString .copy (cString s h).2 (cString s h).1 = some (goStringN .copy (cString s h).2 s.brk h.len) := by
+    unfold goString
+    rw [show (cString s h).1 = s.brk from rfl, if_neg (by omega), hlen]
+  refine ⟨_, hg, ?_, ?_⟩
+  · unfold goStringN
+    by_cases hn : (h.len : Int) ≤ 0
+    · rw [if_pos hn]; simp only; omega
+    · rw [if_neg hn]; simp
+  · intro ws hws
+    have := gostringn_stable (cString s h).2 s.brk h.len ws (by simpa using hws)
+    rw [this]
+    simpa [Heap.str] using hsrc
+
+/-- hypotheses of `cgo_string_roundtrip`: the Go string "hi" at 16, frontier 24 -/
+example : (0 : Nat) < (Heap.mk (fun a => if a = 16 then 104 else if a = 17 then 105 else 0) 24).brk ∧
+    ∀ i, i < (GoStr.mk 16 2).len → (Heap.mk (fun a => if a = 16 then 104 else if a = 17 then 105 else 0) 24).mem ((GoStr.mk 16 2).data + i) ≠ 0 := by
   decide
 
 end LlgoVerif.CAbi
